@@ -60,4 +60,29 @@ CHECKS = {
         assumptions=["allocation is measured with runtime.MemStats.TotalAlloc around the single decode call, in a process that runs nothing else",
                      "the bound 256 KiB + 96*len is the weakest reading of 'small constant plus linear'; TestC04_AllocRatio re-validates on every run that the densest valid inputs (ratio ~26) stay inside it"],
     ),
+    "C02": dict(
+        pkg="frame",
+        level="exploration",
+        groups=[G("^TestC02_Write$", 6000, 40000)],
+        rule="1-3 WriteFcall operations on one channel over a tapped in-memory connection, optionally with SetMSize in between; the message is drawn first "
+             "(any kind, Twrite/Tread over-represented), then msize = its frame size + delta, delta in -40..+40 (60%) or small/huge/random in [24, 2^20]; "
+             "Tread counts near msize-11, 2^31 and 2^32; 10% cancelled contexts. Oracle written independently of maybeTruncate from the property text: "
+             "expected tap contents computed with the reference encoder. Non-trivial = |frame - msize| <= 40 or a truncate/clamp/refuse path was taken.",
+        require_classes=dict(quick=["twrite_truncated", "twrite_exact", "tread_clamped", "other_refused", "other_exact", "other_over_by_1", "cancelled"], thorough=[]),
+        assumptions=["msize >= 24 as the property states", "the connection accepts every write (no I/O faults; those belong to C11/C12)"],
+    ),
+    "C03": dict(
+        pkg="frame",
+        level="exploration",
+        groups=[G("^TestC03_Read$", 4000, 30000)],
+        fuzz=[("FuzzFraming", 90)],
+        rule="byte stream = 1..8 (thorough 1..20) frame specs: valid message of any kind, frame filled to exactly msize-k (k 0..5), oversize by k, "
+             "well-framed garbage/unknown type, body cut short at any point, length prefix 4..6, and only as last element an impossible prefix 0..3 or a "
+             "stream ending mid-frame; msize in [24, 8192] boundary-dense; the connection hands the bytes out in generated chunk sizes (1-byte reads, splits "
+             "inside the length prefix, large reads). Oracle: per frame, the reference decoder applied to that frame's own bytes and msize (absolute), and the "
+             "same frame alone on a fresh channel (isolation). Non-trivial = a non-first frame follows a frame of a different class, or reads split the length prefix.",
+        require_classes=dict(quick=["f_valid", "f_fill", "f_oversize", "f_garbage", "f_short", "f_tiny", "f_badprefix", "f_cutstream", "split_prefix"], thorough=[]),
+        assumptions=["after an impossible length prefix (0..3) or a premature end of stream nothing further is asserted (the position of the next frame is undefined)",
+                     "the reference decoder (refwire.Decode) defines which bodies are decodable; it agrees with the library on millions of fuzzed inputs (C01 FuzzDecodeVsRef)"],
+    ),
 }
